@@ -5,6 +5,7 @@ package main
 // processing instructions), versus Mxj.Model.Seq.
 
 import (
+	"bytes"
 	"fmt"
 	"strings"
 
@@ -42,6 +43,11 @@ func c04Exec(op string) string {
 	c.pos++
 	esc := c.boolean()
 	goEmpty := c.boolean()
+	indented := strings.HasPrefix(op, "xseqi ")
+	pfx, ind := "", ""
+	if indented {
+		pfx, ind = c.str(), c.str()
+	}
 	doc := c.str()
 	if c.err != nil {
 		return "bad-op " + c.err.Error()
@@ -60,6 +66,20 @@ func c04Exec(op string) string {
 		return "err " + xmlErrKind(err)
 	}
 	x, xerr := m.Xml()
+	if indented {
+		// xseqi: MapSeq.XmlIndent beside Mxj.Model.SeqIndent.mapSeqXmlIndent, byte for byte
+		x, xerr = m.XmlIndent(pfx, ind)
+		res := "doc " + enc(map[string]interface{}(m)) + " | "
+		if xerr != nil {
+			return res + "err other | "
+		}
+		note := ""
+		var w bytes.Buffer
+		if werr := m.XmlIndentWriter(&w, pfx, ind); werr != nil || w.String() != string(x) {
+			note = "MapSeq.XmlIndentWriter writes something else than XmlIndent returns"
+		}
+		return res + "ok " + encStr(string(x)) + " | " + note
+	}
 	res := "doc " + enc(map[string]interface{}(m)) + " | "
 	if xerr != nil {
 		return res + "err other | "
@@ -104,6 +124,10 @@ func c04Describe(op string) string {
 	c.pos++
 	esc := c.boolean()
 	ge := c.boolean()
+	if strings.HasPrefix(op, "xseqi ") {
+		pfx, ind := c.str(), c.str()
+		return fmt.Sprintf("MapSeq decode then XmlIndent(%q, %q) options=%+v encoderEscaping=%v goEmpty=%v doc=%q", pfx, ind, o, esc, ge, c.str())
+	}
 	doc := c.str()
 	return fmt.Sprintf("MapSeq round trip options=%+v encoderEscaping=%v goEmpty=%v doc=%q", o, esc, ge, doc)
 }
@@ -161,6 +185,11 @@ func c04Gen(r *Rng, n int) []string {
 		// the round-trip clause is claimed for un-cast decoding of documents in the C04 shape
 		// (CDATA runs are text; a CDATA split inside an element still is one text run)
 		dom := g.SeqShape && !o.Cast && !o.Snake && !o.KeepSpace
+		if r.P(25) {
+			ops = append(ops, fmt.Sprintf("xseqi %s %s %s %s %d %d %s %s %s", o.enc(), strconvTable(leafTexts([]byte(doc))), toks, fin, b2i(esc), b2i(goEmpty),
+				encStr(r.Pick([]string{"", "", " ", "\t"})), encStr(r.Pick([]string{"  ", " ", "\t", "", "--"})), encStr(doc)))
+			continue
+		}
 		ops = append(ops, fmt.Sprintf("xseq %s %s %s %s %d %d %s ;dom %d", o.enc(), strconvTable(leafTexts([]byte(doc))), toks, fin, b2i(esc), b2i(goEmpty), encStr(doc), b2i(dom)))
 	}
 	return ops
